@@ -210,7 +210,7 @@ PROPS['C01'] = dict(_PUSH_COMMON,
     rule='(a) every non-literal instruction applied (Instruction::perform) to states whose operand positions run over boundary value lists (23 i64 values incl. MIN/MAX/2^32/sqrt boundaries; 22 f64 bit patterns incl. NaNs, infinities, signed zeros, subnormal, 2^53+1, i64 range edges): sampled pairs in the quick tier, all pairs in the thorough tier; (b) literals/blocks/input variables as single steps; (c) random nested programs (5-45 elements, nested blocks and exec literals to depth 5, bound input variables, random initial stacks, capacities from exactly-full upwards, step limits 0-150/400) through State::run_to_completion. All four stacks, capacities, printed bytes and the outcome class/error kind are compared with Spec/Run evaluated in coqc. Non-trivial: every single-step case; a run whose program has >= 3 elements and step limit >= 3. Distinct = distinct inputs.',
     trusted=['Rust std f64 Display as the float-to-text oracle (second harness pass)', 'primitive floats of the Coq kernel (hardware binary64) for float instructions'],
     assumptions=['when an operand is missing AND the destination is full either report is accepted (run_alts)', 'PrintString contents limited to the case string table'],
-    level_text='Theorems (Props/C01.v) over the executable semantics table Spec.v and the interpreter Run.v: per-clause theorems for ALL operand values (top-op-second arithmetic, /0 -> 1, %0 -> 0, overflow skips, saturating negate/abs, mathematical predicates that consume all operands incl. parity of negatives, conditional action tables, block unfolding order, checked_pow = mathematical power with range test). The real PushState is tied to the table by differential execution of every instruction on boundary values and of random nested programs, judged inside coqc.',
+    level_text='Theorems (Props/C01.v) over the executable semantics table Spec.v and the interpreter Run.v: per-clause theorems for ALL operand values (top-op-second arithmetic, /0 -> 1, %0 -> 0, overflow skips, saturating negate/abs, mathematical predicates that consume all operands incl. parity of negatives, conditional action tables, block unfolding order, checked_pow = mathematical power with range test). The instruction set is also modelled as the Rust composes it (Impl.v: pops, pushes, pre-checks, discards) and proved equal to the table on well-formed states, as is the interpreter loop over it (C01_refine, C01_run). The real PushState is tied to the table by differential execution of every instruction on boundary values and of random nested programs, judged inside coqc.',
     level_note='Trusted: Coq kernel incl. primitive floats; harness+driver; Rust std float Display. Dual-fault report order left open (both accepted).',
     technique='Coq theorems over an executable Push semantics + differential correspondence (every instruction x boundary values, random programs) evaluated in coqc',
     design_ref='DESIGN.md §4 C01, Appendix A',
@@ -221,7 +221,7 @@ PROPS['C02'] = dict(_PUSH_COMMON,
     rule='fault-point lattice: every instruction (plus literals, input variables, blocks) x sizes 0..4 of each stack x capacity slack 0..2 (sampled in quick, full grid of sizes x slack{0,1} in thorough), boundary values at the fault points, and sparse-operand programs run to completion. For an error the harness compares the state carried by the error with a clone of the input (PushState ==) and field-wise. Non-trivial: all single-step cases; distinct inputs.',
     trusted=['PushState::eq (derived) for the whole-state comparison, cross-checked field-wise'],
     assumptions=['wf (every stack within its capacity) — an invariant of reachable states proved in C03/C19'],
-    level_text='Theorems (Props/C02.v): for every instruction and every well-formed state, an error outcome carries exactly the input state (record equality: all stacks, capacities, output, inputs, limits), recoverable errors are exactly operand/arithmetic faults and fatal ones overflows, and the interpreter after a recoverable error equals the interpreter on a no-op. Tied to the code on the fault-point lattice through Instruction::perform.',
+    level_text='Theorems (Props/C02.v): for every instruction and every well-formed state, an error outcome carries exactly the input state (record equality: all stacks, capacities, output, inputs, limits), recoverable errors are exactly operand/arithmetic faults and fatal ones overflows, and the interpreter after a recoverable error equals the interpreter on a no-op. The same for the code as composed (C02_err_state_impl, where well-formedness is needed and is an invariant). Tied to the code on the fault-point lattice through Instruction::perform.',
     level_note='Trusted: as C01. Hypothesis wf is discharged by C03_wf_invariant.',
     technique='Coq proof by case analysis over the instruction table (error => state unchanged) + fault-point lattice correspondence',
     design_ref='DESIGN.md §4 C02',
@@ -232,7 +232,7 @@ PROPS['C03'] = dict(_PUSH_COMMON,
     rule='self-replicating and exponentially growing programs (DupBlock / exec Dup / exec literals) x step limits 0..39 (119 thorough) x capacities 0,1,2,3,5,8,30; loop-heavy random programs, some with every limit 0..11; nesting depth 10..1000; an unbound input variable (expected panic). Each run under a process watchdog. Non-trivial: program >= 3 elements and limit >= 3.',
     trusted=['process-level watchdog of the driver for hangs/aborts'],
     assumptions=['native stack exhaustion at nesting depth of several thousand is outside the model (known finding D7)'],
-    level_text='Theorems (Props/C03.v): evaluation is total by construction (structural recursion on a binary step budget proved equal to the while loop), takes at most max_steps steps, keeps every stack within its capacity at every step (wf is an inductive invariant), a fatal error is always an overflow of a destination that lacks room, underflow/arithmetic faults are never fatal, and no panic occurs when every mentioned input is bound. Tied to the code by limit sweeps over looping programs.',
+    level_text='Theorems (Props/C03.v): evaluation is total by construction (structural recursion on a binary step budget proved equal to the while loop), takes at most max_steps steps, keeps every stack within its capacity at every step (wf is an inductive invariant), a fatal error is always an overflow of a destination that lacks room, underflow/arithmetic faults are never fatal, and no panic occurs when every mentioned input is bound. The same guarantees for the interpreter over the code as composed (C03_composed_code). Tied to the code by limit sweeps over looping programs.',
     level_note='Trusted: as C01; native stack exhaustion not modelled (D7 known finding).',
     technique='Coq invariant proofs over the interpreter loop (step bound, capacity invariant, fatal=>overflow) + limit-sweep correspondence under a watchdog',
     design_ref='DESIGN.md §4 C03',
@@ -293,7 +293,7 @@ PROPS['C05'] = dict(
     rule='num_opens of every instruction variant the code has (strum iteration) observed through the parse; ALL gene sequences of length <= 6 (quick) / 8 (thorough) over {close, position-tagged 0-opener, 1-opener (When), 2-opener (IfElse)}; random genomes up to 400 genes over the whole instruction set; adversarial shapes (all closes, all openers to depth 1000, alternating). The resulting Vec<PushProgram> is compared structurally with parse_top evaluated in coqc. Non-trivial: the genome has at least one opener and one close. The native-stack ladder (1000 .. 300000 nested openers) runs in a child process.',
     trusted=['structural observation of PushProgram through pattern matching'],
     assumptions=['nesting depth <= 1000 on the implementation side of the correspondence; deeper nesting: known finding native-stack-deep-nesting'],
-    level_text='Theorems (Props/C05.v) about the fuelled recursive-descent model of parse_from_plushy: totality (fuel S(length g) always suffices, so no failure branch exists), flatten(parse g) = instructions of g in order, the shape invariant (an instruction opening k blocks is followed by exactly k blocks, blocks nowhere else), a top-level close is ignored, a trailing close changes nothing (open blocks are closed at the end). Tied to the code exhaustively on small genomes and on random/adversarial ones.',
+    level_text='Theorems (Props/C05.v) about the fuelled recursive-descent model of parse_from_plushy: totality (fuel S(length g) always suffices, so no failure branch exists), flatten(parse g) = instructions of g in order, the shape invariant (an instruction opening k blocks is followed by exactly k blocks, blocks nowhere else), a top-level close is ignored, a trailing close changes nothing (open blocks are closed at the end). An independent printer is inverted by the parser on every well-shaped program (C05_roundtrip: a close ends the innermost open block). Tied to the code exhaustively on small genomes and on random/adversarial ones.',
     level_note='Trusted: Coq kernel; harness+driver. Native stack exhaustion on extreme nesting is outside the model (known finding).',
     technique='Coq proofs by induction on fuel over a recursive-descent parser model + exhaustive small-scope and random differential correspondence',
     design_ref='DESIGN.md §4 C05',
@@ -566,7 +566,7 @@ PROPS['C06'] = dict(_SEL_COMMON, post_batch=make_stat_post('C06', sel_obs_code),
     nontrivial=lambda i, o: len(i[2][1]) >= 1,
     rule='populations (empty, singleton, all-equal, duplicate-laden, ragged with missing cases, random; up to 8 individuals) x selector configurations (best, worst, random, tournament sizes 1..n+2, lexicase case counts 0..4 - smaller/equal/larger than the results available -, weighted trees of depth <= 2 and dynamic lists, also nested in each other, weights incl. 0) x 60 (quick) / 400 (thorough) seeded draws. Each returned reference is located in the population by pointer identity; every observed outcome (index class or documented error) must have positive probability in the model law computed in coqc, and frequencies are compared as well. Non-trivial: non-empty population.',
     assumptions=['errors are classified through From conversions of the library error enums (no string matching)'],
-    level_text='Theorems (Props/C06.v) by induction over a deep embedding of ALL selector combinations (best, worst, random, tournament, lexicase, weighted leaves and pairs nested arbitrarily, dynamic lists): every selected index is an index of the given population, an empty-population error occurs only for an empty population, and the selection distribution is total (mass 1: no stuck or panicking outcome exists in the model). Tied to the code by exact support membership of every draw (pointer identity).',
+    level_text='Theorems (Props/C06.v) by induction over a deep embedding of ALL selector combinations (best, worst, random, tournament, lexicase, weighted leaves and pairs nested arbitrarily, dynamic lists): every selected index is an index of the given population, an empty-population error occurs only for an empty population, and the selection distribution is total (mass 1: no stuck or panicking outcome exists in the model). An error is reported only in its documented situation, for every combination (C06_documented), and those situations are reported with certainty. Tied to the code by exact support membership of every draw (pointer identity).',
     level_note='Trusted: Coq kernel; harness+driver; rand primitives as oracles.',
     technique='Coq induction over a deep embedding of selector combinations (support theorems) + exact support-membership correspondence with pointer identity',
     design_ref='DESIGN.md §5 C06')
@@ -575,7 +575,7 @@ PROPS['C07'] = dict(_SEL_COMMON, post_batch=make_stat_post('C07', sel_obs_code),
     nontrivial=lambda i, o: len(i[2][1]) >= 2,
     rule='populations of 1..7 single-case individuals, with and without ties, both polarities; every tournament size k = 1..n with 20000 (quick) / 400000 (thorough) seeded draws of the real Tournament::select, frequencies per tie class against the law evaluated from the model definition (uniform k-subsets, best of the subset) - not from the closed form, which is the theorem; Best and Worst: membership in the maximal / minimal class. Non-trivial: at least two individuals.',
     assumptions=['ties inside a tournament are resolved in an unspecified way: comparison is per tie class'],
-    level_text='Theorems (Props/C07.v): best/worst return a maximal/minimal individual; every drawn tournament is a k-sublist of the population (distinct individuals), all C(n,k) of them equally likely; the winner is maximal in its tournament, hence at least as good as k-1 others; the CDF of the winner including ties is C(#{<= v}, k) / C(n, k); size 1 is uniform choice and size n is best selection. Tied to the code by exact support checks and seeded frequencies with an explicit error budget.',
+    level_text='Theorems (Props/C07.v): best/worst return a maximal/minimal individual; every drawn tournament is a k-sublist of the population (distinct individuals), all C(n,k) of them equally likely; the winner is maximal in its tournament, hence at least as good as k-1 others; the CDF of the winner including ties is C(#{<= v}, k) / C(n, k); size 1 is uniform choice and size n is best selection. (both as theorems: C07_size_1_is_uniform, C07_size_n_is_best). Tied to the code by exact support checks and seeded frequencies with an explicit error budget.',
     level_note='Trusted: Coq kernel; harness+driver; choose_multiple uniform over k-subsets (oracle).',
     technique='Coq counting proof (k-sublists, binomial CDF) over a distribution monad + exact support and statistical-law correspondence',
     design_ref='DESIGN.md §5 C07')
@@ -668,7 +668,7 @@ PROPS['C18'] = dict(
     rule='collection generators for Vec, Bitstring (both constructors), Plushy and a population of scored individuals at sizes 0, 1, 2, 17 and 1000 (length of every sample and membership of every element compared exactly); uniform choices built through all 15 conversion flavours (Vec / array / slice, owning / borrowing / cloning, IntoDistribution / ToDistribution, and the uniform_distribution_of! macro) from empty sources (EmptySlice expected) and from sources of 1..6 members incl. duplicates: num_choices compared exactly, members exactly (zero-probability values are violations), frequencies against 1/len per index; sources of 3*2^23, 2^25 and 2^24+1 members through the Vec and slice flavours, the chosen index judged by residue classes (mod 3, 2, 5) against the class law proved in C18_choice_uniform_classes; zero-sized elements (collections) and sources of 0, 1, 7, 2^32-1, 2^32, 2^32+1, 2^33 zero-sized members (num_choices exact, rejected only when empty); sources of 100, 192, 255, 257 members with 15x the draws; (thorough) 2^32+2 one-byte members.',
     trusted=['rand Uniform / slice::Choose as oracles', 'statistical tie with delta = 1e-12 per cell'],
     assumptions=[],
-    level_text='Theorems (Props/C18.v): a collection generator yields exactly n elements each drawn from the element generator (and is total); a uniform choice returns only indices of the source, each with probability exactly 1/length (duplicates handled by index), and an empty source is rejected at construction. Tied to the code by exact length / membership / num_choices checks for every conversion flavour and by seeded frequencies.',
+    level_text='Theorems (Props/C18.v): a collection generator yields exactly n elements each drawn from the element generator (and is total); a uniform choice returns only indices of the source, each with probability exactly 1/length (duplicates handled by index), and an empty source is rejected at construction. The elements of a collection are independent draws (product law); the uniform law seen through residue classes of the index (for sources of millions of members). Tied to the code by exact length / membership / num_choices checks for every conversion flavour and by seeded frequencies.',
     level_note='Trusted: Coq kernel; harness+driver; rand primitives as oracles.',
     technique='Coq theorems over the distribution monad (collection length/membership, uniform-by-index) + exact and statistical correspondence over all conversion flavours',
     design_ref='DESIGN.md §6 C18')
@@ -690,7 +690,7 @@ PROPS['C09'] = dict(
     trusted=['thread interleavings are SAMPLED, not enumerated; that children cannot mutate the shared population is Rust\'s &P / Sync typing (trusted)',
              'the randomness of Generation is rand::rng() (thread RNG): not seedable, so the judge is relational over the recorded words'],
     assumptions=['distinctness of 64-bit words drawn by different children stands for "own live randomness" (collision probability negligible)'],
-    level_text='Theorems (Props/C09.v) for an ARBITRARY child-making operator: serial stepping yields as many children as the population had and installs exactly them; on failure the population is exactly the old one; every call is made on the old population and is handed the generator state the previous call left (consecutive disjoint stretches of the stream), and nothing is made after a failure; the parallel relation (independent generator per child, any schedule) gives the same length / atomicity guarantees. Tied to the code by an instrumented child maker under serial_next and par_next with failure at every position and several pool sizes.',
+    level_text='Theorems (Props/C09.v) for an ARBITRARY child-making operator: serial stepping yields as many children as the population had and installs exactly them; on failure the population is exactly the old one; every call is made on the old population and is handed the generator state the previous call left (consecutive disjoint stretches of the stream), and nothing is made after a failure; the parallel relation (independent generator per child, any schedule) gives the same length / atomicity guarantees. The new population is exactly what the calls returned, in call order; the error reported is that of the last call made. Tied to the code by an instrumented child maker under serial_next and par_next with failure at every position and several pool sizes.',
     level_note='Trusted: Coq kernel; harness+driver; rayon scheduling and Rust aliasing guarantees (schedules sampled).',
     technique='Coq theorems over the repeat combinator (atomic replace, call chain) + instrumented child-maker correspondence under serial and rayon-parallel stepping',
     design_ref='DESIGN.md §6 C09')
@@ -728,7 +728,7 @@ PROPS['C16'] = dict(
     rule='31 selectors, mutators, recombinators, generators and compositions (selectors also on populations of 8..47 distinct individuals with many ties - where hash order or a cache could decide) exported by the three crates (table in harness/src/c16.rs) x 12 (quick) / 200 (thorough) seeds: three consecutive calls from (A) a fresh operator value, (B) another fresh value with a generator cloned from the same seed, (C) a value that was already used five times with another generator - results and the next word of the generator must all coincide (a consult of the thread RNG, global state, or a cache inside the operator shows up as a difference); one entry interleaves two operators on one generator. Push: 80 (quick) / 600 (thorough) random nested programs with 2-3 bound inputs, evaluated under EVERY permutation of the input declarations and twice from each built state: all runs must coincide and equal the model run (stacks, output bytes, outcome).',
     trusted=['that equal observable results and an equal next word mean equal generator states (SplitMix64 state = one word)'],
     assumptions=['"the code is a function of its arguments" is decided code-against-code: a Gallina model is deterministic by construction and cannot carry that claim'],
-    level_text='Theorems (Props/C16.v): named inputs resolve independently of declaration order (lookup is invariant under permutation of a duplicate-free list) and therefore the whole evaluation of any program is - same stacks, output, limits, outcome, step count; combinators have no hidden state (the threaded state after a composition is what its parts left). The remaining half - no randomness or state other than the generator handed in - is decided by double runs from cloned generators on fresh and on used operator values, and by permuting input declarations.',
+    level_text='Theorems (Props/C16.v): named inputs resolve independently of declaration order (lookup is invariant under permutation of a duplicate-free list) and therefore the whole evaluation of any program is - same stacks, output, limits, outcome, step count; combinators have no hidden state (the threaded state after a composition is what its parts left). Stream locality: an operator that uses only the generator it is handed depends only on the consumed stretch of the stream; drawing is local and every combinator preserves locality, so equal generator states give equal results and equal positions for every composition (C16_combinators_preserve_locality, C16_equal_generator_states_equal_results). The remaining half - no randomness or state other than the generator handed in - is decided by double runs from cloned generators on fresh and on used operator values, and by permuting input declarations.',
     level_note='Proof for input-order independence and state threading; correspondence-only (code against code) for "nothing else influences the outcome". Trusted: Coq kernel; harness+driver.',
     technique='Coq simulation proof (evaluation invariant under permutation of input declarations) + code-against-code double-run / reuse / permutation correspondence',
     design_ref='DESIGN.md §6 C16')
@@ -875,7 +875,7 @@ PROPS['C19'] = dict(
     rule='(run) 200 compiled-in well-typed builder call sequences - 140 on PushState, 60 on a second struct the macro is applied to in the harness (other field names, builder_name / instruction_name options, two value stacks) - with per-stack and global sizes in every legal order, repeated value loads, programs, inputs declared in various orders and re-declared, step limits: stack contents (top first), maximum sizes, step limit, the program order on the exec stack and the resolution of every declared input are compared with Builder.brun in coqc, as is the overflow error; the derived accessors are exercised on PushState through HasStack. (compile) 25 (quick) / 150 (thorough) well-typed sequences plus their ill-typed neighbours (each required step omitted, a resize after a load, values before any size, a second program decision, a global size after data, no build) and raw random sequences, each compiled as its own binary against the current tree with cargo check: rustc accepts it <=> Builder.typed.',
     trusted=['rustc / cargo check as the oracle of what compiles (differential compile probes)', 'the sequence generators and Rust emitters (driver/c19gen.py, harness/gen/gen_c19.py)'],
     assumptions=['derived HasStack accessors are exercised on PushState only (they do not compile downstream for >= 2 stacks: observation O1 in DESIGN)', 'the macro attribute parser is not modelled'],
-    level_text='Theorems (Props/C19.v): the type-state machine transcribed from the generated trait bounds admits a build only after the global stack size, a program decision and a step limit; after values were loaded into a stack neither its own nor the global size can be set; typed sequences are prefix closed. Built state: loading puts the first supplied value on top and stacks up over repeated loads, more values / program elements than the maximum is an overflow and nothing is built, the program\'s first element is on top of exec, the maximum last set (globally or individually) wins, named inputs resolve to their last declaration independently of declaration order. Tied to the code by compiled-in call sequences on two macro-generated structs and by differential compile probes (compiles <=> typed).',
+    level_text='Theorems (Props/C19.v): the type-state machine transcribed from the generated trait bounds admits a build only after the global stack size, a program decision and a step limit; after values were loaded into a stack neither its own nor the global size can be set; typed sequences are prefix closed. Built state: loading puts the first supplied value on top and stacks up over repeated loads, more values / program elements than the maximum is an overflow and nothing is built, the program\'s first element is on top of exec, the maximum last set (globally or individually) wins, named inputs resolve to their last declaration independently of declaration order. Every state a well-typed sequence builds has every stack within its maximum (C19_built_state_within_maxima). Tied to the code by compiled-in call sequences on two macro-generated structs and by differential compile probes (compiles <=> typed).',
     level_note='Trusted: Coq kernel; harness+driver+generators; rustc as compile oracle.',
     technique='Coq theorems over a type-state automaton and builder semantics + compiled-in call sequences and differential cargo-check compile probes',
     design_ref='DESIGN.md §8 C19')
